@@ -4,8 +4,8 @@ set -e
 cd "$(dirname "$0")"
 export PYTHONPATH="$PWD"
 mkdir -p .work/bin evidence replays
-python3 tools/regen.py || true
-(cd lean && lake build Cog drv)
+python3 tools/regen.py || echo "WARNING: a fact extractor failed; the owning check reports it"
+(cd lean && lake build Cog drv) || echo "WARNING: full lake build failed; each check builds the modules it needs"
 python3 - <<'PY'
 from verifkit.core import build_go
 import sys
